@@ -33,13 +33,13 @@ def PTest.holds (tr : Trace) (k : Nat) : PTest → Bool
   | .atom n a p => tr k (atomKey n a p)
   | .const b => b
 
-/-- positions reachable by one run of the path from a position in `s`, inside `0..h` -/
-def Path.reach (h : Nat) (tr : Trace) : Path → List Nat → List Nat
-  | .skip, s => (s.filter (fun k => k + 1 ≤ h)).map (· + 1)
-  | .check t, s => s.filter (fun k => t.holds tr k)
-  | .choice l r, s => unionNat (l.reach h tr s) (r.reach h tr s)
-  | .seq l r, s => r.reach h tr (l.reach h tr s)
-  | .star p, s => closure (p.reach h tr) (h + 1) s
+/-- `p.runs h tr k j`: some run of the path leads from `k` to `j` inside `0..h` -/
+def Path.runs (h : Nat) (tr : Trace) : Path → Nat → Nat → Bool
+  | .skip, k, j => j == k + 1 && decide (j ≤ h)
+  | .check t, k, j => j == k && t.holds tr k
+  | .choice l r, k, j => l.runs h tr k j || r.runs h tr k j
+  | .seq l r, k, j => anyUpTo h fun m => l.runs h tr k m && r.runs h tr m j
+  | .star p, k, j => starRuns h (p.runs h tr) (h + 1) k j
 
 /-- truth value of a code-level formula at position `k` of a trace of length `h+1`;
     `lv` values the program literals of element conditions (`NumericLiteral`) -/
@@ -60,8 +60,8 @@ def BForm.sem (h : Nat) (tr : Trace) (lv : Int → Bool) : BForm → Nat → Boo
   | .telN2 true l r, k => allBetween k h fun j => r.sem h tr lv j || anyBetween k (j-1) fun i => i < j && l.sem h tr lv i
   | .telN1 false r, k => anyBetween k h fun j => r.sem h tr lv j
   | .telN1 true r, k => allBetween k h fun j => r.sem h tr lv j
-  | .dia p f, k => (p.reach h tr [k]).any fun j => f.sem h tr lv j
-  | .box p f, k => (p.reach h tr [k]).all fun j => f.sem h tr lv j
+  | .dia p f, k => anyUpTo h fun j => p.runs h tr k j && f.sem h tr lv j
+  | .box p f, k => allUpTo h fun j => !(p.runs h tr k j) || f.sem h tr lv j
 
 /-- right-hand sides of the one-step equations -/
 inductive BExpr where
